@@ -328,6 +328,13 @@ fn failures(ctx: &mut Ctx, conv: &Converter) {
     let cases: Vec<(ScaledQuantity, &str)> = vec![
         (Quantity::new(Value::Text("some".into()), Some("kg".into())), "text"),
         (Quantity::new(Value::Text("some".into()), None), "nounit"),
+        // text that looks like a number to somebody (a thousands separator, a decimal comma, an exponent) is still text
+        (Quantity::new(Value::Text("1,000".into()), Some("ml".into())), "text"),
+        (Quantity::new(Value::Text("1,5".into()), Some("kg".into())), "text"),
+        (Quantity::new(Value::Text("1e3".into()), Some("g".into())), "text"),
+        (Quantity::new(Value::Text("2".into()), Some("cup".into())), "text"),
+        (Quantity::new(Value::Text("1/2".into()), Some("tsp".into())), "text"),
+        (Quantity::new(Value::Text("½".into()), Some("l".into())), "text"),
         (Quantity::new(Value::Number(Number::Regular(2.0)), None), "nounit"),
         (Quantity::new(Value::Number(Number::Regular(2.0)), Some("pinch".into())), "unknown"),
         (Quantity::new(Value::Range { start: Number::Regular(1.0), end: Number::Regular(2.0) }, Some("handfuls".into())), "unknown"),
